@@ -809,7 +809,7 @@ func signatureOf(vc *VCase, class string) (sig string, minProg *gm.Program, minH
 		trigger = "throw-into-finally-of-try-with-catch"
 	}
 	if trigger != "" {
-		return vc.Part + "|" + trigger + "|" + what + "|" + class, nil, nil
+		return vc.Part + "|" + trigger + "|" + what + "|" + coarseClass(class), nil, nil
 	}
 	caps := vc.Caps
 	if c, _ := failsAs(vc.Part, vc.Name, vc.Prog, hist, vc.Batch, vc.OneRun, 0); c == class {
@@ -831,6 +831,24 @@ func signatureOf(vc *VCase, class string) (sig string, minProg *gm.Program, minH
 		sig = "async|" + bodyText(minProg, true) + "|" + asyncHistText(minHist, vc.Batch) + fmt.Sprintf(" [stack caps %d]", caps) + "|" + class
 	}
 	return
+}
+
+// coarseClass: the symptoms of one defect vary with the enumerated case (a stray write lands in a different
+// slot, ...), so the signatures attributed to a trigger carry only the kind of symptom.
+func coarseClass(class string) string {
+	switch {
+	case strings.HasPrefix(class, "fault:go-panic"):
+		return "go-panic"
+	case strings.HasPrefix(class, "fault:vm-not-idle"):
+		return "vm-not-idle"
+	case strings.HasPrefix(class, "fault:"):
+		return strings.SplitN(class[len("fault:"):], ":", 2)[0]
+	case strings.Contains(class, "!!stack-overflow"):
+		return "stack-overflow"
+	case strings.Contains(class, "the call did not return"):
+		return "call did not return"
+	}
+	return "wrong result or log"
 }
 
 // clearReent returns a copy of p whose instrumented iterators lack the re-entrancy flag (nil if none has it).
